@@ -173,7 +173,7 @@ func RunProp[C any](t *testing.T, p Prop[C]) {
 				rdir = dir
 			}
 			_ = os.MkdirAll(rdir, 0o755)
-			name := fmt.Sprintf("%s-%s-%d.json", p.ID, p.Name, st.Seed)
+			name := fmt.Sprintf("%s-%s-%d-%s.json", p.ID, p.Name, st.Seed, caseHash(append(lastCase, []byte(lastVerdict.Violation)...)))
 			rf := replayFile{Property: p.ID, Unit: p.Name, Violation: lastVerdict.Violation, Sig: lastVerdict.Sig, Case: lastCase, Trace: lastVerdict.Trace, First: firstCase}
 			b, _ := json.MarshalIndent(rf, "", " ")
 			path := filepath.Join(rdir, name)
